@@ -21,6 +21,7 @@ CONSTANTS MaxLen,        \* every string over Alphabet up to this length
           LongLen,       \* strings  [dfa] ":" s  with Len(s) <= LongLen - 2
           StartPerms,    \* start permission values (12 bits: special bits included)
           StringPerms,   \* start permission values used with the raw strings
+          RawKinds,      \* entry kinds used with the raw strings
           DoubleGroups, DoublePerms    \* group / permission spellings used for the cross product of double clauses
 VARIABLES expr, kind, m0,      \* the input: expression, kind of the entry, its start mode (never change)
           inp,                 \* characters not yet read
@@ -63,7 +64,7 @@ HandWritten == {
    <<"a", ":", "u", "+", "-", "x">>, <<"a", ":", "+", "x">>, <<"a", "u", "+", "x">>, <<"u", "+", "x">> }
 LaterBad == UNION {{<<"a", ":", "u", "+", "x", ",">> \o s : s \in [1..n -> Alphabet]} : n \in 0..(MaxLen - 1)}   \* a good clause, then any string
 WellFormedOnes == Singles \cup Doubles \cup HandWritten
-RawOnes == (Strings \cup Longs \cup LaterBad) \ WellFormedOnes
+RawOnes == Strings \cup Longs \cup LaterBad        \* may overlap with WellFormedOnes: that is the same initial state then
 
 \* ---- the scanner ----
 Matched == kind # "link" /\ (tgt = "a" \/ (tgt = "d" /\ kind = "dir") \/ (tgt = "f" /\ kind = "file"))
@@ -73,9 +74,8 @@ Applied == LET B == gacc \cap pacc IN
 Entry == [t |-> tgt, G |-> gacc, o |-> op, P |-> pacc, m |-> Matched, b |-> perm, a |-> Applied]
 
 \* well-formed expressions from every start permission; the raw strings (whose fate does not depend on the mode) from StringPerms
-Init == /\ kind \in Kinds
-        /\ \/ expr \in WellFormedOnes /\ \E p \in StartPerms : m0 = TypeOfKind(kind) + p
-           \/ expr \in RawOnes /\ \E p \in StringPerms : m0 = TypeOfKind(kind) + p
+Init == /\ \/ expr \in WellFormedOnes /\ kind \in Kinds /\ \E p \in StartPerms : m0 = TypeOfKind(kind) + p
+           \/ expr \in RawOnes /\ kind \in RawKinds /\ \E p \in StringPerms : m0 = TypeOfKind(kind) + p
         /\ inp = expr /\ st = "target" /\ ci = 1 /\ tgt = "-" /\ gacc = {} /\ op = "0" /\ pacc = {}
         /\ perm = Bits(m0) \cap 0..8 /\ log = <<>>
 
